@@ -404,4 +404,64 @@ theorem decode_eq (data : List UInt8) : Gen.readTzfile_decode data = (decode dat
     simp [List.map_fst_zip, List.map_snd_zip, hlen2, List.length_zip]
     omega
 
+/-- what `decode` guarantees: every type index of a decoded table is in range -/
+theorem decode_ok (data : List UInt8) (r : Raw) (h : decode data = .ok r) : Raw.ok r = true := by
+  unfold decode at h
+  by_cases hm : data.take 4 = magic
+  case neg => simp [hm, bind, Except.bind, throw, throwThe, MonadExceptOf.throw] at h
+  simp only [hm, ne_eq, not_true_eq_false, ↓reduceIte, bind, Except.bind] at h
+  generalize hhdr : (readN (List.drop 16 (List.drop 4 data)) 24) = hdr at h
+  obtain ⟨hd, s1⟩ := hdr
+  simp only at h
+  by_cases hl : hd.length = 24
+  case neg => simp [hl, throw, throwThe, MonadExceptOf.throw, Except.bind, bind] at h
+  cases hb : be32List hd with
+  | none => simp [hl, hb, throw, throwThe, MonadExceptOf.throw, Except.bind, bind] at h
+  | some l =>
+    have hlen := be32List_length _ _ hb
+    have h6 : l.length = 6 := by omega
+    rcases l with _ | ⟨cg, _ | ⟨cs, _ | ⟨cl, _ | ⟨ct, _ | ⟨cy, _ | ⟨cc, _ | ⟨g, r'⟩⟩⟩⟩⟩⟩⟩ <;> simp at h6
+    simp only [hl, hb, pure, Except.pure, Except.bind, bind, ↓reduceIte] at h
+    cases h1 : readLongs s1 ct with
+    | error e => simp [h1] at h
+    | ok p1 =>
+    obtain ⟨times, s2⟩ := p1
+    simp only [h1] at h
+    cases h2 : readBytes s2 ct with
+    | error e => simp [h2] at h
+    | ok p2 =>
+    obtain ⟨idxs, s3⟩ := p2
+    simp only [h2] at h
+    cases h3 : readTtinfo cy.toNat s3 with
+    | error e => simp [h3] at h
+    | ok p3 =>
+    obtain ⟨recs, s4⟩ := p3
+    simp only [h3] at h
+    by_cases ha : ((readN s4 cc).fst.any fun x => decide (x ≥ 128)) = true
+    case pos => simp [ha, throw, throwThe, MonadExceptOf.throw] at h
+    simp only [ha, Bool.false_eq_true, ↓reduceIte] at h
+    generalize (if cl ≥ 0 then List.drop (cl * 8).toNat (readN s4 cc).snd
+      else List.drop (↑data.length - ↑(readN s4 cc).snd.length + cl * 8).toNat data) = s5 at h
+    cases h4 : readBytes s5 cs with
+    | error e => simp [h4] at h
+    | ok p4 =>
+    obtain ⟨sb, s6⟩ := p4
+    simp only [h4] at h
+    cases h5 : readBytes s6 cg with
+    | error e => simp [h5] at h
+    | ok p5 =>
+    obtain ⟨gb, s7⟩ := p5
+    simp only [h5] at h
+    by_cases hany : (idxs.any fun i => decide (i.toNat ≥ (mkTypes recs (readN s4 cc).fst sb gb).length)) = true
+    case pos => simp [hany, throw, throwThe, MonadExceptOf.throw] at h
+    simp only [hany, Bool.false_eq_true, ↓reduceIte, Except.ok.injEq] at h
+    subst h
+    simp only [Raw.ok, List.all_eq_true, decide_eq_true_eq]
+    intro p hp
+    have hmem : p.2 ∈ idxs.map (fun x => x.toNat) := (List.of_mem_zip hp).2
+    simp only [List.mem_map] at hmem
+    obtain ⟨b, hb1, hb2⟩ := hmem
+    simp only [List.any_eq_true, decide_eq_true_eq, not_exists, not_and, Nat.not_le] at hany
+    rw [← hb2]; exact hany b hb1
+
 end TzifGen
